@@ -3,12 +3,50 @@ from common import SAN_BASE
 
 PROP = dict(
         technique=("runtime monitoring: ASan/UBSan/LSan build + path->value map model; after every assign/remove every path of the "
-                   "case's universe (and every prefix) is queried for value and existence; path functions against split(separator)"),
-        level_text="(draft)",
-        level_note="(draft)",
-        legs=[dict(name="c10_path", src=["c10_path.c"], libs=["mptcore"], batch=512, lsan=True, floors={}),
-              dict(name="c10_global", src=["c10_global.c"], libs=["mptcore"], batch=1, lsan=True, floors={}),
-              dict(name="c10_cxx", src=["c10_cxx.cpp"], libs=["mpt++", "mptio", "mptplot", "mptcore"], batch=64, lsan=True, floors={})],
-        rule="(draft)",
-        assumptions=SAN_BASE,
+                   "case's universe (and every prefix of it) is queried for value and existence; path functions are compared with "
+                   "split(separator) / a vector of byte strings"),
+        level_text=("Monitored executions of the real configuration code.  Store legs: histories of 50..250 (thorough 400) assign / remove / "
+                    "clear / query operations over a universe of 6..20 paths built from 4..6 element names (lengths 1..3, one of 254..257, "
+                    "optionally the empty name; shared prefixes, prefix-of-another, repeated elements), separators '.', '/', ':' mixed freely, "
+                    "end-delimiter form, binary (length-linked) paths, values of 0..300 bytes; stores: the process-wide one incl. up to 4 "
+                    "sub-tree views (1600 / 40k one-history processes) and a private C++ config::root (8k / 300k histories).  After every "
+                    "mutating operation every universe entry is queried: value must be byte-equal to the last assignment, absent where the "
+                    "model has none, existence must match the prefix-closed node set.  Path leg (120k / 2M cases): mpt_path_set + walk with "
+                    "mpt_path_next / mpt_path_last against split(sep); rebuild with addchar/valid/add and mpt_path_del in text and binary mode.  "
+                    "Exploration, not proof."),
+        level_note=("trusts the map model in harness/c10_global.c / c10_cxx.cpp and the split model in c10_path.c, gcc ASan/UBSan/LSan; "
+                    "values of >= 250 bytes may be refused by the value storage (other properties), a refusal must leave the map unchanged"),
+        legs=[dict(name="c10_path", src=["c10_path.c"], libs=["mptcore"], batch=512, lsan=True,
+                   floors={"mpt_path_set": 30000, "mpt_path_next": 300000, "mpt_path_last": 100000, "mpt_path_add": 100000,
+                           "mpt_path_del": 50000, "mpt_path_addchar": 500000,
+                           "elements:empty": 10000, "elements:len254": 1000, "elements:len255": 1000, "elements:len256": 1000,
+                           "elements:len257": 1000, "state:binary-mode": 10000, "state:last-after-next": 30000,
+                           "state:set-explicit-length": 5000, "state:set-end-delimiter": 5000, "outcome:add-refused": 3000,
+                           "monitor:element-compares": 300000, "monitor:last-compares": 100000}),
+              dict(name="c10_global", src=["c10_global.c"], libs=["mptcore"], batch=1, lsan=True,
+                   floors={"mpt_config_set:assign": 30000, "mpt_config_set:remove": 10000, "mpt_config_set:clear": 1000,
+                           "mpt_config_global:view": 2000, "view:assign": 10000, "view:remove": 5000, "view:node-conversion": 1000,
+                           "config::assign:binary-path": 2000, "config::remove:binary-path": 1000,
+                           "state:overwrite": 10000, "state:remove-inner-node": 2000, "state:remove-absent": 3000,
+                           "state:view-base-created": 300, "universe:long-element": 500, "universe:empty-element": 200,
+                           "monitor:value-compares": 500000, "monitor:absence-compares": 500000,
+                           "monitor:existence-compares": 1000000, "monitor:view-compares": 100000, "mpt_config_get": 100000}),
+              dict(name="c10_cxx", src=["c10_cxx.cpp"], libs=["mpt++", "mptio", "mptplot", "mptcore"], batch=64, lsan=True,
+                   floors={"config::set:assign": 100000, "config::root::assign": 50000, "config::set:remove": 50000,
+                           "config::del": 30000, "config::root::remove": 30000, "config::root::remove:clear": 5000,
+                           "state:overwrite": 30000, "state:remove-inner-node": 5000, "state:long-value": 5000,
+                           "state:del-explicit-length": 10000,
+                           "monitor:value-compares": 2000000, "monitor:absence-compares": 2000000,
+                           "monitor:existence-compares": 5000000})],
+        rule=("case = (path leg) one generated path string of 1..6 elements set and walked, or one build/delete history of 4..17 steps; "
+              "(store legs) one history over a fresh universe as described in level_text.  non-trivial = (set) >= 3 elements or an element "
+              "of >= 254 bytes; (rebuild) >= 3 elements added and >= 1 deleted; (store) >= 10 accepted assignments, >= 3 removals and "
+              ">= 2 overwrites of an existing value; distinct = 64-bit hash of names, operations, paths, separators and values"),
+        assumptions=SAN_BASE + ["admissible caller: the end delimiter passed to mpt_config_set occurs in the string; element names contain no "
+                                "separator, no end delimiter and no NUL (binary paths excepted); the first argument of path functions is a path "
+                                "initialised with MPT_PATH_INIT / mpt_path_set / the addchar-valid-add protocol of the parser",
+                                "return value of removing an absent path and of mpt_path_set (element count) are not asserted",
+                                "the byte behind an explicit-length path string is not part of the path",
+                                "view with empty relative path: assign sets the value of the base node, remove clears the children of the base "
+                                "(source comments in config_global.c)"],
     )
